@@ -464,3 +464,21 @@ def run(index, rep, tier):
                                       "%s: `%s[%d]` only under len(%s) == N" % (fi.name, base, k, base),
                                       "%s reads `%s[%d]` on a path that has not established `len(%s) == N`: a node with more children than the walk names has the others left out without an error (the in-order walk is defined for binary nodes only and refuses anything else)" % (fi.qualname, base, k, base))
         rep.floor("R15.10", "positional child reads in iterators", 2, n10)
+
+    # ---- R15.11 the caller's filter sees only what the iterator would yield
+    with rep.section("R15.11"):
+        rep.rule("R15.11", "the caller's filter sees only the kind of node the iterator yields: in the leaf / internal-node iterators of Node and Tree the composite predicate `<structural test> and filter_fn(x)` puts the structural test (is_leaf(), `_child_nodes`, the seed test) FIRST - `and` short-circuits, so a filter written for leaves (`lambda nd: nd.taxon.label in wanted`) is never called on an internal node, whose taxon is None")
+        n11 = 0
+        for mod in (TM + "_node", TM + "_tree"):
+            for f in index.functions_in_module(mod):
+                if not (("leaf" in f.name or "internal" in f.name) and "iter" in f.name):
+                    continue
+                for lam in [x for x in ast.walk(f.node) if isinstance(x, ast.Lambda)]:
+                    for b in [x for x in ast.walk(lam.body) if isinstance(x, ast.BoolOp) and isinstance(x.op, ast.And)]:
+                        pos = [i for i, v in enumerate(b.values) if any(isinstance(c, ast.Call) and isinstance(c.func, ast.Name) and c.func.id == "filter_fn" for c in ast.walk(v))]
+                        if not pos:
+                            continue
+                        n11 += 1
+                        rep.check(pos[0] == len(b.values) - 1, "R15.11", f.qualname, "the caller's filter is evaluated before the structural test", fn_where(f, lam), "%s: `%s` tests the node kind first" % (f.name, norm(b)[:50]),
+                                  "%s builds the predicate `%s`: the caller's filter runs BEFORE the test that says what kind of node this is, so it is called on nodes the iterator would never yield - a leaf filter such as `lambda nd: nd.taxon.label in wanted` raises AttributeError on the first internal node instead of selecting leaves" % (f.qualname, norm(b)[:60]))
+        rep.floor("R15.11", "composite predicates with a caller's filter in the leaf / internal-node iterators", 3, n11)
